@@ -5,7 +5,7 @@
    callers, equal or distinct keys, known or unknown actions). *)
 From Coq Require Import List Arith NArith Bool Lia.
 Import ListNotations.
-Require Import FV.Gen.C11 FV.C11.Model FV.C11.Lemmas FV.C11.ReleaseBase FV.C11.Release.
+Require Import FV.Gen.C11 FV.C11.Model FV.C11.Lemmas FV.C11.ReleaseBase FV.C11.Release FV.C11.Cleanup.
 
 (* obligations on the facts regenerated from /repo (Gen/C11.v): the code has the modelled shape, and no reply
    action of REQUEST2REPLY starts with the error prefix *)
@@ -110,6 +110,34 @@ Proof.
   - intros e r H1 H2. apply requeue_moves_parked; assumption.
 Qed.
 
+(* TIME-OUT CLEANUP BY IDENTITY.  `do_cleanup` is the loop at the top of every turn of the rx thread
+   (`while self.cleanup: entry = self.cleanup.pop(); for key, prev in self.active_requests.items(): if prev is entry:
+   pop(key); break`; `rx_loop_top` runs it whenever the client is running, and nothing else touches the list).
+   For every set of requests and every schedule (time-outs at any moment, late replies, keys reused):
+   (1) the cleanup removes an entry from active_requests if and only if it IS the entry of a request on the cleanup
+       list - an entry of another request stays, whatever its key;
+   (2) only requests whose caller has returned are on the cleanup list;
+   (3) so the entry of a caller t that has not returned - e.g. a later request that reuses the key of a timed-out
+       one, which is still on the list - keeps its registration under its key, and the reply or error reply that
+       arrives for it is matched to t. *)
+Theorem C11_cleanup_removes_only_own_entry : forall reqs sched,
+  let s := run R2R ERR reqs sched in
+  let a' := active (do_cleanup s) in
+  (running s = true -> active (rx_loop_top s) = a' /\ cleanup (rx_loop_top s) = []) /\
+  (forall k e, In (k, e) (active s) -> (In (k, e) a' <-> ~ In e (cleanup s))) /\
+  (forall e, In e (cleanup s) -> caller_done s e = true) /\
+  (forall t ok, wf_req R2R ERR (req reqs t) -> caller_done s t = false ->
+     dget (key_of R2R (req reqs t)) (active s) = Some t ->
+     dget (key_of R2R (req reqs t)) a' = Some t /\
+     fst (rx_match R2R ERR a' (answer R2R ERR (req reqs t) ok t)) = Some t).
+Proof.
+  intros reqs sched s a'. split; [|split; [|split]].
+  - apply rx_loop_top_is_cleanup.
+  - apply cleanup_by_identity.
+  - apply cleanup_only_returned.
+  - intros t ok W D G. apply cleanup_keeps_waiting_entry; auto. apply C11_source_facts.
+Qed.
+
 (* non-vacuity: two callers with the same key; the second is parked in the window of the former defect (tx has
    tested the key, rx delivers and finds `pending` empty, tx parks), is re-queued at the next turn of rx, and both
    get their own answer (reply / error reply) *)
@@ -138,6 +166,27 @@ Example C11_release_demo :
   Wp s = false /\ cs s = [CWait; CWait] /\ memb 0 (evset s) = true /\ memb 1 (evset s) = true /\ us s = UDisc DFin.
 Proof. vm_compute. repeat split; reflexivity. Qed.
 
+(* non-vacuity of C11_cleanup_removes_only_own_entry: two callers with the same key; caller 0 is transmitted, caller 1
+   parked; caller 0 times out (cleanup list = [0]); its late reply arrives before the rx thread has looked at the list,
+   the rx thread re-queues caller 1 and the tx thread registers it under the same key before the rx thread reaches
+   the cleanup loop.  In that state the keyed removal `active_requests.pop(key of the timed-out request)` would
+   delete the entry of caller 1; the cleanup by identity keeps it, and caller 1 receives its own reply *)
+Example C11_cleanup_demo :
+  let reqs := [([114; 101; 97; 100]%N, [109; 58; 112]%N); ([114; 101; 97; 100]%N, [109; 58; 112]%N)] in
+  let pre := [(TC 0, ANone); (TTx, ANone); (TTx, ANone); (TTx, ANone); (TC 1, ANone); (TTx, ANone); (TTx, ANone);
+     (TRx, ANone); (TRx, ANone); (TRx, ANone); (TRx, ANone); (TRx, ANone); (TTx, ANone); (TTx, ANone);
+     (TC 0, ATimeout); (TRx, APeer (PReply 0 true)); (TRx, ANone); (TRx, ANone); (TRx, ANone); (TRx, ANone);
+     (TTx, ANone)] in
+  let s := run R2R ERR reqs pre in
+  let k := key_of R2R (req reqs 0) in
+  cleanup s = [0] /\ active s = [(k, 1)] /\ key_of R2R (req reqs 1) = k /\ caller_done s 1 = false /\
+  snd (dpop k (active s)) = [] /\ active (do_cleanup s) = [(k, 1)] /\
+  let s2 := run R2R ERR reqs (pre ++ [(TRx, ANone); (TTx, ANone); (TRx, ANone); (TRx, APeer (PReply 1 true));
+                                       (TRx, ANone); (TC 1, ANone)]) in
+  map (fun c => match c with CDone (OReply m) => Some (m_tok m) | CDone OTimeout => Some 99 | _ => None end) (cs s2)
+  = [Some 99; Some 1] /\ active s2 = [] /\ cleanup s2 = [].
+Proof. vm_compute. repeat split; reflexivity. Qed.
+
 Print Assumptions C11_source_facts.
 Print Assumptions C11_one_entry_per_key.
 Print Assumptions C11_answer_matched_to_own_entry.
@@ -150,3 +199,4 @@ Print Assumptions C11_no_entry_lost.
 Print Assumptions C11_drained_entry_released.
 Print Assumptions C11_late_request_released.
 Print Assumptions C11_parked_requeued_every_turn.
+Print Assumptions C11_cleanup_removes_only_own_entry.
